@@ -3,7 +3,7 @@ from . import pipeline_common as pc
 from ..common import Verdict, run_shards, seed, tier
 
 PROP = "C01"
-N = {"quick": 2400, "thorough": 60000}
+N = {"quick": 6000, "thorough": 150000}
 
 
 def run_case(case):
@@ -23,7 +23,7 @@ def main():
                 ["pydantic.v1 parse_obj is the acceptor for pydantic/sqlmodel output; sqlmodel is a stub package",
                  "base framework: 'field without default' is read as 'annotation is not Optional'",
                  "date/time-like strings in this workload are in canonical ISO form"])
-    results, infra = run_shards(PROP, cases, timeout_per_case=30)
+    results, infra = run_shards(PROP, cases, timeout_per_case=8)
     v.infra = infra
     for c, r in zip(cases, results):
         if r["status"] == "blocked":
